@@ -14,7 +14,12 @@ def plan(ctx):
     by = {}
     for m in fam:
         by.setdefault((m["rate"], m["kinds"]), []).append(m)
-    quick = {rnd.choice(ms)["name"] for ms in by.values()}
+    quick = set()
+    for (rate, kinds), ms in by.items():
+        quick.add(rnd.choice(ms)["name"])
+        # the boundary where one of the two orders crosses the 'enough shards' threshold
+        edge = [m for m in ms if families.popcount(m["po"]) + families.popcount(m["pr"]) == m["k"] - 1]
+        quick.update(m["name"] for m in edge)
     hs = []
     for m in fam:
         R = "High" if m["rate"] == "high" else "Low"
@@ -26,5 +31,5 @@ def plan(ctx):
     return Plan(hs,
                 assumptions=["every permutation is a product of adjacent transpositions; decode is a deterministic function of the compared state (views cover every field of DecoderWork and Shards)",
                              "surplus shards / given originals never reported / all originals given => empty result: decided by the pattern families of C01, C06 and C12 (all subsets with >= k members for k+r <= 5)"],
-                outside=["configurations beyond (3,2)/(2,3)", "prefixes other than the 4 enumerated", "shard sizes other than 2 bytes"],
+                outside=["configurations beyond (3,2)/(2,3)", "prefixes other than those enumerated (empty, and the lowest-index shapes with k-1 / k shards already given)", "shard sizes other than 2 bytes"],
                 trusted_base=COMMON_TRUSTED)
